@@ -621,6 +621,29 @@ impl<'a, 'b> SGen<'a, 'b> {
                     return self.gate_call(None);
                 }
                 let x = Expr::Ident(vs[self.src.below(vs.len())].0.clone());
+                if self.p.usage && self.fault() {
+                    // a quantum value (declared qubit / register or hardware qubit) as operand of
+                    // a binary operator, on either side or on both
+                    let qs = self.visible(|k| matches!(k, EKind::Qubit | EKind::QReg(_)));
+                    let mut quantum = |g: &mut Self| -> Expr {
+                        if qs.is_empty() || g.src.bool() {
+                            Expr::Hw(format!("${}", g.src.below(4)))
+                        } else {
+                            Expr::Ident(qs[g.src.below(qs.len())].0.clone())
+                        }
+                    };
+                    let op = [BinOp::Add, BinOp::Mul, BinOp::Eq, BinOp::Neq, BinOp::Sub][self.src.below(5)];
+                    let l = quantum(self);
+                    let e = match self.src.below(3) {
+                        0 => Expr::Bin(op, bx(l), bx(x)),
+                        1 => Expr::Bin(op, bx(x), bx(l)),
+                        _ => {
+                            let r = quantum(self);
+                            Expr::Bin(op, bx(l), bx(r))
+                        }
+                    };
+                    return Stmt::ExprStmt(e);
+                }
                 Stmt::ExprStmt(match self.src.below(3) {
                     0 => Expr::Un(UnOp::Neg, bx(x)),
                     1 => Expr::Paren(bx(x)),
